@@ -171,6 +171,12 @@ func effectsCmd(args []string) error {
 		if r.Intn(4) == 0 {
 			os.WriteFile(filepath.Join(proj, ".env"), []byte("E=1\n"), 0o644)
 		}
+		// the project (or the directory above it) is sometimes the top of a git repository: that changes nothing about which files an action may touch
+		if x := r.Intn(6); x < 2 {
+			top := []string{proj, filepath.Join(home, "w")}[x]
+			os.MkdirAll(filepath.Join(top, ".git"), 0o755)
+			os.WriteFile(filepath.Join(top, ".git", "HEAD"), []byte("ref: refs/heads/main\n"), 0o644)
+		}
 		kind := "good"
 		src := ""
 		found, loads := true, true
